@@ -21,6 +21,7 @@ META = {
             'Cases cut by the harness (statement budget, QUIT injected into waiting statements, watchdog) observe nothing after the cut. '
             'interact()/the SDL interfaces/the command-line front end are not driven; only Session.execute/evaluate.',
 }
+META['text'] += ' A value-history arm runs sessions of 8..30 string / array / FRE / DEF FN statements (re-assignment out of creation order, SWAP, ERASE, garbage collections) that are judged by the same trace spec.'
 KEYWORD_SOUP = None
 
 
